@@ -852,7 +852,7 @@ func r42CornerOfOrigin(c *core.Ctx) {
 		calls := core.CallsIn(info, f.Decl, "tms20.ToXYPoint")
 		okXY := len(calls) == 1
 		if okXY {
-			okXY = strings.Contains(canon(calls[0].Args[1]), "PointOfOrigin")
+			okXY = len(calls[0].Args) >= 1 && strings.Contains(canon(calls[0].Args[len(calls[0].Args)-1]), "PointOfOrigin")
 		}
 		c.Check(R, "origin-through-toxypoint/"+name, f.Decl.Pos(), okXY, "the origin is obtained once through ToXYPoint(tms, *tm.PointOfOrigin)", "the point of origin is not normalised to x,y order through ToXYPoint")
 	}
